@@ -105,6 +105,8 @@ TOLERATED = [
      "clean tolerates directive errors: the swallowed error is dropped", _g_clean_mode),
     (r"^txtpp::main$", r"^std::env::var$", "TXTPP_FILE unset is the normal case", None),
     (r"^txtpp::main$", r"^txtpp::txtpp$", "the error was already printed by txtpp(); main maps it to ExitCode::FAILURE (R04.5)", None),
+    (r"(^|::)path_string_from_base$", r"^std::path::Path::strip_prefix$",
+     "display only: a path outside the base directory is shown in full", None),
     (r"(^|::)resolve_shell$", r"^which::which$",
      "falls back to the literal name, which is then canonicalised and fails loudly if absent", None),
 ]
@@ -380,16 +382,41 @@ def r04_4(ctx):
                 ctx.violation([f.name, "ok"], "txtpp() can return Ok without Txtpp::run having succeeded", site=ctx.site(f, bb))
     ri = body(ctx, "txtpp_run_internal")
     if ri:
-        # TaskResult payloads are consumed by `?`: the payload flows to a Try::branch
+        # the Result carried by each TaskResult variant fails the run: it is consumed by `?`, or matched with an Err arm that returns Err
+        def is_payload(lv):
+            return any(l.kind == "field" and any(o == ADT["TaskResult"] for (o, v, n) in C.pl_fields(l.data)) for l in lv)
         cnt = 0
         for bb, t in ri.calls():
-            if C.is_try_branch(t):
-                lv = C.trace(ri, t["args"][0], through_decorators=True)
-                if any(l.kind == "field" and any(o == ADT["TaskResult"] for (o, v, n) in C.pl_fields(l.data)) for l in lv):
-                    cnt += 1
-                    ctx.ok("worker result consumed by `?`", site=ctx.site(ri, bb))
+            if C.is_try_branch(t) and is_payload(C.trace(ri, t["args"][0], through_decorators=True)):
+                cnt += 1
+                ctx.ok("worker result consumed by `?`", site=ctx.site(ri, bb))
+        errs = set(err_sites(ri))
+        oks = set(ok_sites(ri))
+        heads = {bb for bb, t in ri.calls() if C.callee_name(t) == "std::sync::mpsc::Receiver::<T>::try_recv"}
+        for sbb in C.switches(ri):
+            c = C.switch_cond(ri, sbb)
+            if c.kind != "enum" or c.adt != "std::result::Result" or not is_payload(c.src + C.trace(ri, c.place, through_fields=True)):
+                continue
+            err_e = {eid for eid, succ, vs in C.edge_variants(ri, sbb, c, ctx.lib) if vs == {"Err"}}
+            if not err_e:
+                continue
+            reached = ri.reachable_from_edges(err_e, cut=out_edges(ri, errs))
+            # drop elaboration re-tests the discriminant at the end of the scope to drop what was not moved out: such a switch is
+            # followed only by drops / gotos / drop-flag updates (no call, no real assignment) until the loop head or the return
+            stop = ri.reachable_from_edges(err_e, cut=out_edges(ri, heads | {x for x in reached if ri.term(x)["k"] == "return"}))
+            if not any(ri.term(x)["k"] == "call" and x not in heads for x in stop) and not any(
+                    st["k"] == "assign" and not (st["rv"]["k"] == "use" and st["rv"]["op"]["k"] == "const") and st["rv"]["k"] != "discriminant"
+                    for x in stop if x not in heads for st in ri.blocks[x]["stmts"]):
+                continue
+            esc = [x for x in reached if x in oks or x in heads or ri.term(x)["k"] == "return"]
+            cnt += 1
+            if (errs & reached) and not esc:
+                ctx.ok("worker error matched: the Err arm returns Err", site=ctx.site(ri, sbb))
+            else:
+                ctx.violation([ri.name, "task-error-arm"], "a failed worker result is matched but its Err arm does not always return an error "
+                              "(the loop continues or the run succeeds)", site=ctx.site(ri, sbb))
         if cnt < 2:
-            ctx.violation([ri.name, "task-results"], "fewer than the two TaskResult payloads (ScanDir, Preprocess) are propagated with `?` (%d)" % cnt,
+            ctx.violation([ri.name, "task-results"], "fewer than the two TaskResult payloads (ScanDir, Preprocess) fail the run on error (%d)" % cnt,
                           site=ctx.site(ri, 0))
 
 
@@ -402,8 +429,13 @@ def r04_5(ctx):
     m = ctx.role(binp, "txtpp::main")
     if not m:
         return
-    ok_e = enum_edges(m, binp, "std::result::Result", lambda vs: vs == {"Ok"}, src_pred=lambda c: has_call(c.src, "txtpp::txtpp"))
-    err_e = enum_edges(m, binp, "std::result::Result", lambda vs: vs == {"Err"}, src_pred=lambda c: has_call(c.src, "txtpp::txtpp"))
+    from_txtpp = lambda t: has_call(C.trace(m, t["args"][0]), "txtpp::txtpp")
+    ok_e = enum_edges(m, binp, "std::result::Result", lambda vs: vs == {"Ok"}, src_pred=lambda c: has_call(c.src, "txtpp::txtpp")) | \
+        bool_call_edges(m, binp, "std::result::Result::<T, E>::is_ok", True, arg_pred=from_txtpp) | \
+        bool_call_edges(m, binp, "std::result::Result::<T, E>::is_err", False, arg_pred=from_txtpp)
+    err_e = enum_edges(m, binp, "std::result::Result", lambda vs: vs == {"Err"}, src_pred=lambda c: has_call(c.src, "txtpp::txtpp")) | \
+        bool_call_edges(m, binp, "std::result::Result::<T, E>::is_ok", False, arg_pred=from_txtpp) | \
+        bool_call_edges(m, binp, "std::result::Result::<T, E>::is_err", True, arg_pred=from_txtpp)
     succ, fail = [], []
     for bb, si, st in m.stmts():
         if st["k"] == "assign" and st["lhs"]["l"] == 0 and st["rv"]["k"] == "use" and st["rv"]["op"]["k"] == "const":
